@@ -185,6 +185,21 @@ def run(st, tier, seed):
             if rb["ok"]:
                 res.violations.append({"what": "%s accepted" % why, "input": {"source": bad}, "observed": rb["text"],
                                        "sig": "C10:accepts:" + why, "cmd": "pepper-compiler"})
+        # two wildcard REGIONS among the items of one strand / super-sequence (the extra one first, last, or right next to the
+        # other): ambiguous, must be rejected wherever the regions stand
+        if kind in ("super", "strand"):
+            head_ = "sequence x = " if kind == "super" else "strand X1 = "
+            for where, bad in (("first", t1.replace(head_, head_ + '"?S" ', 1)),
+                               ("last", t1.replace(" : %d" % max(L, 0), ' "?S" : %d' % max(L, 0), 1)),
+                               ("first-and-last", t1.replace(head_, head_ + '"?S" ', 1).replace(" : %d" % max(L, 0), ' "?W" : %d' % max(L, 0), 1))):
+                if bad == t1:
+                    continue
+                rb = compile_text(bad)
+                res.evaluations += 1
+                res.count("malformed:two-wildcard-regions:" + where)
+                if rb["ok"]:
+                    res.violations.append({"what": "two wildcard regions in one %s (the extra one %s) accepted" % ("super-sequence" if kind == "super" else "strand", where),
+                                           "input": {"source": bad}, "observed": rb["text"], "sig": "C10:accepts:two-wildcard-regions", "cmd": "pepper-compiler"})
     res.programs = len(reqs)
     if drv is not None:
         got = drv.call_many(reqs)
